@@ -1017,4 +1017,15 @@ theorem Tnuc_order_of_stochastic_run_2D (p : Par ℝ) (f : Flags) (hw : WFGrid2D
   obtain ⟨h4, h5⟩ := h3 (Kv_pos_at_crossing_2D p f T0C prof NtExp Frand hF hdt r.iCool hc)
   exact ⟨h1, h2, h4, h5⟩
 
+
+open Snow.S2D in
+/-- `Tnuc_stats_order_2D` with its size hypothesis discharged: the field of every loop state has
+`Nz·Nr` entries (`st2D_size`), non-empty as soon as both grid sizes are positive -/
+theorem Tnuc_stats_order_of_run_2D (p : Par ℝ) (f : Flags) (hNz : 0 < p.Nz) (hNr : 0 < p.Nr) (T0C : ℝ)
+    (prof : List ℝ) (NtExp : ℕ) (Frand : ℝ) (cn : Option ℝ) (r : Result ℝ)
+    (h : run p f T0C prof NtExp Frand cn = .ok r) :
+    r.TnucMin ≤ r.TnucMean ∧ r.TnucMean ≤ r.TnucMax :=
+  Tnuc_stats_order_2D p f T0C prof NtExp Frand cn r h (by
+    rw [st2D_size]; exact Nat.mul_pos hNz hNr)
+
 end Snow.C08
